@@ -531,7 +531,7 @@ def all_names(f, acc):
 
 PRE = """From Coq Require Import ZArith NArith List Bool.
 Import ListNotations.
-Require Import UV.C19.Model.
+Require Import UV.C19.Model UV.C19.Lazy.
 """
 
 
@@ -540,7 +540,8 @@ def evaluate(ctx, ecases, name="ecases"):
         return {"mismatch": [], "violations": []}
     defs = "Definition ecases : list ecase := [\n%s\n].\n" % ";\n".join(c_ecase(k) for k in ecases)
     res = coq.run_cases(ctx, name, PRE, defs, [
-        ("mismatch", "bad_indices e_agrees ecases 0"),
+        # os._exit: the lazy record writer on the model's hook calls (C19_os_exit_records), else the plain pairing
+        ("mismatch", "bad_indices (fun k => if x_open k then e_agrees_lazy k else e_agrees k) ecases 0"),
         ("violations", "bad_indices e_ok ecases 0"),
     ])
     if res is None:
@@ -705,7 +706,7 @@ def run(ctx, objdir):
         if k is not None:
             ecases.append(k)
             ctx.case(key=("e2e-fixed", "os._exit", lib), tags=["e2e:fixed-os._exit", "e2e:lib:" + lib])
-    nprog = ctx.n(6, 44)
+    nprog = ctx.n(6, 40)
     for pi in range(nprog):
         prog = gen_program(rng)
         w.write(prog)
